@@ -73,6 +73,8 @@ class FakeTransport(object):
 
     def get_extra_info(self, name, default=None):
         if name == 'peername':
+            if self.__dict__.get('nopeer'):
+                return None          # the peer reset before connection_made ran: asyncio has no peer name to give
             return ('127.0.0.1', 40000 + self.cid)
         return default
 
@@ -238,7 +240,12 @@ class Impl(object):
             conn = BC.Connection(self.server)
             t = FakeTransport(self, cid)
             self.conns[cid], self.tr[cid] = conn, t
-            self._guard(cid, conn.connection_made, t)
+            if len(ev) > 3 and ev[3] == 'nopeer':
+                t.nopeer = True
+                # an exception in connection_made is logged by the loop; the transport is NOT closed by it
+                self._guard(cid, conn.connection_made, t, forced_close=False)
+            else:
+                self._guard(cid, conn.connection_made, t)
         elif k == 'data':
             self._guard(ev[1], self.conns[ev[1]].data_received, hx(ev[2]))
         elif k == 'wfault':
@@ -598,7 +605,11 @@ class Shadow(object):
             c.wants_lenient = set()
             c.registered_guess = True
             self.conns[ev[1]] = c
-            exp['info'] = ev[1]
+            if len(ev) > 3 and ev[3] == 'nopeer':
+                c.nopeer = True
+                self.flags.add('no-peername')
+            else:
+                exp['info'] = ev[1]
         elif k == 'data':
             c = self.conns[ev[1]]
             c.stream += hx(ev[2])
@@ -844,6 +855,9 @@ def run_script(script, drv, res, want_model=True):
     if any(e[0] == 'wfault' for e in script['events']):
         res.note('monitor-only.write-fault')
         want_model = False
+    if any(e[0] == 'connect' and len(e) > 3 for e in script['events']):
+        res.note('monitor-only.no-peername')
+        want_model = False
     if drv is not None and want_model:
         lines, kinds = model_lines(script, labels, chans)
         ans = drv.ask_many(lines)
@@ -993,6 +1007,8 @@ class Gen(object):
         self.nonce = {}
         self.ident = {}     # what the client believes it is
         self.held = {}      # cid -> channels it ever asked for (under any identity it had)
+        self.nopeer = set()
+        self.sent_info = lambda cid: True
         self.stale = {}     # ident -> secrets the store held for it earlier
         self.revoked = {}   # ident -> row it had when it was removed from the store
         self.tail = {}      # bytes cut off from the previous data event, still to be sent
@@ -1027,6 +1043,10 @@ class Gen(object):
 
     def auth_bytes(self, cid, valid=True):
         rng = self.rng
+        if cid in self.nopeer and not self.sent_info(cid):
+            # no challenge was sent: the client cannot know the nonce
+            ident = rng.choice(list(self.rows) or ['nobody'])
+            return enc(P.OP_AUTH, p8(ident.encode()) + hashlib.sha1(bytes(rng.getrandbits(8) for _ in range(4)) + b'guess').digest())
         if not self.rows:
             valid = False
         ident = rng.choice(list(self.rows)) if (self.rows and (valid or rng.random() < 0.5)) else rng.choice(IDENTS + ['nobody'])
@@ -1171,6 +1191,7 @@ class Gen(object):
 
 def gen_script(rng, tier, profile):
     force_wfault = profile.endswith('+wfault')
+    force_nopeer = profile.endswith('+nopeer')
     profile = profile.split('+')[0]
     mode = 'async' if profile == 'async' or (profile in ('adversary', 'loss') and rng.random() < 0.25) else 'sync'
     cfg = mk_cfg(rng, mode, profile)
@@ -1194,6 +1215,11 @@ def gen_script(rng, tier, profile):
                 do(['lost', cid])
                 deadlines.pop(cid, None) if False else None
 
+    # some histories (monitors only) contain connections whose peer name is missing: the peer reset before
+    # connection_made ran.  Such a client never sees a challenge unless the broker sends one, so it only
+    # authenticates validly when the implementation under test has actually written OP_INFO to it
+    nopeer_script = force_nopeer or (mode == 'sync' and profile in ('adversary', 'loss', 'gauges') and rng.random() < 0.1)
+    g.sent_info = lambda cid: any(kind == 'w' for ms, kind, payload in impl.tr[cid].log)
     # one history in eight of the fan-out profiles gets an injected write fault on one subscriber (monitors only)
     wfault_at = rng.randint(nev // 3, nev - 2) if (mode == 'sync' and profile in ('fanout', 'subs', 'adversary') and (force_wfault or rng.random() < 0.125) and nev > 6) else None
     try:
@@ -1208,7 +1234,11 @@ def gen_script(rng, tier, profile):
                 g.next_id += 1
                 nonce = bytes(rng.getrandbits(8) for _ in range(4)) if rng.random() < 0.9 else rng.choice([b'\x00\x00\x00\x00', b'\x01a\x01c'])
                 g.nonce[cid] = nonce
-                do(['connect', cid, nonce.hex()])
+                if mode == 'sync' and nopeer_script and impl.tr and rng.random() < 0.4:
+                    g.nopeer.add(cid)
+                    do(['connect', cid, nonce.hex(), 'nopeer'])
+                else:
+                    do(['connect', cid, nonce.hex()])
                 continue
             if wfault_at is not None and _ >= wfault_at:
                 subs_now = [c for c in live if impl.conns[c].active_subscriptions]
@@ -1537,11 +1567,11 @@ PROFILES = {
     'C03': ['spoof', 'reauth', 'acl', 'spoof'],
     'C04': ['acl', 'window', 'adversary', 'reauth', 'loss'],
     'C08': ['subs', 'reauth', 'gauges', 'subs'],
-    'C09': ['loss', 'window', 'gauges', 'async', 'fanout'],
-    'C10': ['adversary', 'window', 'loss', 'stall', 'adversary', 'fanout+wfault'],
+    'C09': ['loss', 'window', 'gauges', 'async', 'fanout', 'loss+nopeer'],
+    'C10': ['adversary', 'window', 'loss', 'stall', 'adversary', 'fanout+wfault', 'window+nopeer', 'adversary+nopeer'],
     'C14': ['async'],
     'C15': ['stall', 'stall', 'fanout'],
-    'C19': ['gauges', 'reauth', 'loss', 'subs', 'gauges'],
+    'C19': ['gauges', 'reauth', 'loss', 'subs', 'gauges', 'gauges+nopeer'],
 }
 
 
